@@ -478,6 +478,35 @@ def run(ck):
                 cs = cs + [dict(c, scalar_t=True) for c in calls if c.get("method") in (None, "dopri5")]
             for call, cls, what in sweep(ck, spec, grid, cs, stats, cases, m=m):
                 violations.append((spec, grid, call, cls, what))
+    # ---- several solves on one model: after `initial_time` alone is changed, the same grid must be solved from the new t0
+    for spec in specs[:ck.budget(6, 40)]:
+        try:
+            m = build(spec)
+            grid = gen_grid(rng, spec, "uniform")
+            gap = grid[0] - spec["t0"]
+            if gap <= 1e-3:
+                continue
+            seq_calls = [dict(entry="integrate", full=False), dict(entry="integrate2", method=None, full=False),
+                         dict(entry="solve_determ", full=False)]
+            for call in seq_calls:                       # first solve: fills whatever the model keeps between calls
+                call_entry(m, spec, call, grid)
+            t0b = float(round(spec["t0"] + 0.5 * gap, 6))
+            m.initial_time = np.float64(t0b)
+            spec_b = dict(spec, t0=t0b)
+            ref_b = reference(spec_b, grid)
+            if ref_b is None:
+                continue
+            for call in seq_calls:
+                res = call_entry(m, spec_b, call, grid)
+                cls, what, worst = judge(call, res, ref_b, grid)
+                ck.case(dict(kind="sequence-initial_time", model=spec.get("name") or spec["events"], grid=grid, t0=spec["t0"], t0b=t0b,
+                             call=call), nontrivial=True)
+                if cls:
+                    ck.violation("after-initial_time-change/" + cls, "solved on a grid, changed initial_time from %r to %r, solved on the "
+                                 "same grid again: %s" % (spec["t0"], t0b, what), dict(spec=spec, grid=grid, call=call, t0b=t0b,
+                                                                                       kind="sequence-initial_time"))
+        except Exception as e:      # noqa: B902
+            ck.notes.setdefault("sequence_errors", []).append("%s: %s" % (type(e).__name__, str(e)[:120]))
     # ---- optional: the default Cython back-end on one catalogue model (thorough only; one compile per evaluator)
     if not ck.quick:
         try:
@@ -603,6 +632,13 @@ def replay(ck, data):
     if not inp:
         return None
     spec, grid, call = inp["spec"], inp["grid"], inp["call"]
+    if inp.get("kind") == "sequence-initial_time":
+        m = build(spec)
+        call_entry(m, spec, call, grid)
+        m.initial_time = np.float64(inp["t0b"])
+        spec_b = dict(spec, t0=inp["t0b"])
+        cls, what, _ = judge(call, call_entry(m, spec_b, call, grid), reference(spec_b, grid), grid)
+        return what if cls else None
     ref = reference(spec, grid)
     res = call_entry(build(spec), spec, call, grid)
     cls, what, _ = judge(call, res, ref, grid)
